@@ -663,6 +663,26 @@ def fam_order(tier: str, rng: random.Random) -> Iterator[dict]:
                                     yield p
 
 
+def fam_order_forms(tier: str, rng: random.Random) -> Iterator[dict]:
+    """C16: several precondition groups whose conditions configure their errors differently (an explicit error in an
+    EARLIER group, the default in the last one, and the other way round): the error is that of the first falsy condition
+    of the last group tried, whatever its form."""
+    shapes = [[[1], [2]], [[1, 2], [3]], [[1], [2, 3]], [[1], [2], [3]]]
+    orders = [["inst", "default", "class", "factory"], ["class", "default", "default", "inst"],
+              ["factory", "inst", "default", "default"], ["default", "class", "default", "default"]]
+    for kind in ("method", "static"):
+        for shape in shapes:
+            n = _shape_ncons(shape)
+            for pre_bits in itertools.product([True, False], repeat=n):
+                if all(pre_bits):
+                    continue
+                for forms in orders:
+                    for isasync in (False, True):
+                        p = member_prog(kind, False, shape, 0, 0, pre_bits, [], forms, False, isasync, tag="order-forms")
+                        if p is not None:
+                            yield p
+
+
 # ------------------------------------------------------------------------------------------------------
 # C03: invariants around operations on instances.  Object states: 0 = not constructed, 1 = sound, 2 = broken.
 INV_TRUTH = [False, True, False]
